@@ -61,6 +61,7 @@ static const double plf7_6_4_z[6] = {-0.3346222298730800, 1.0975679907321640, -1
 static const double plf7_6_4_y[6] = {-1.6218101180868010, 0.0061709468110142, 0.8348493592472594, -0.0511253369989315, 0.5633782670698199, -0.5};
                 
 static inline void reb_integrator_eos_interaction_shell0(struct reb_simulation* r, double y, double v){
+    REB_VERIF(r, "kick0", 3, y, v, r->dt);
     // Calculate gravity using standard gravity routine
     r->gravity_ignore_terms = 2;
     r->gravity = REB_GRAVITY_BASIC;
@@ -79,6 +80,7 @@ static inline void reb_integrator_eos_interaction_shell0(struct reb_simulation* 
 }
 
 static inline void reb_integrator_eos_interaction_shell1(struct reb_simulation* r, double y, double v){
+    REB_VERIF(r, "kick1", 3, y, v, r->dt);
     const int N = r->N;
 	const int N_real   = N - r->N_var;
     const int N_active = r->N_active==-1?N_real:r->N_active;
@@ -303,6 +305,7 @@ static inline void reb_integrator_eos_interaction_shell1(struct reb_simulation* 
 
 }
 static inline void reb_integrator_eos_preprocessor(struct reb_simulation* const r, double dt, enum REB_EOS_TYPE type, void (*drift_step)(struct reb_simulation* const r, double a), void (*interaction_step)(struct reb_simulation* const r, double y, double v)){
+    REB_VERIF(r, "pre_b", 2, (double)type, dt);
     switch(type){
         case REB_EOS_PMLF6:
             for (int i=0;i<6;i++){
@@ -325,8 +328,10 @@ static inline void reb_integrator_eos_preprocessor(struct reb_simulation* const 
         default:
             break;
     }
+    REB_VERIF(r, "pre_e", 1, (double)type);
 }
 static inline void reb_integrator_eos_postprocessor(struct reb_simulation* const r, double dt, enum REB_EOS_TYPE type, void (*drift_step)(struct reb_simulation* const r, double a), void (*interaction_step)(struct reb_simulation* const r, double y, double v)){
+    REB_VERIF(r, "post_b", 2, (double)type, dt);
     switch(type){
         case REB_EOS_PMLF6:
             for (int i=5;i>=0;i--){
@@ -349,8 +354,10 @@ static inline void reb_integrator_eos_postprocessor(struct reb_simulation* const
         default:
             break;
     }
+    REB_VERIF(r, "post_e", 1, (double)type);
 }
 static void reb_integrator_eos_drift_shell1(struct reb_simulation* const r, double dt){
+    REB_VERIF(r, "drift1", 2, dt, r->dt);
     struct reb_particle* restrict const particles = r->particles;
     unsigned int N = r->N;
     for (unsigned int i=0;i<N;i++){  
@@ -361,6 +368,7 @@ static void reb_integrator_eos_drift_shell1(struct reb_simulation* const r, doub
 }
 
 static void reb_integrator_eos_drift_shell0(struct reb_simulation* const r, double _dt){
+    REB_VERIF(r, "drift0", 3, _dt, r->dt, (double)r->ri_eos.n);
     struct reb_integrator_eos* const reos = &(r->ri_eos);
     const int n = reos->n;
     const double dt = _dt/n;
@@ -532,6 +540,7 @@ static void reb_integrator_eos_drift_shell0(struct reb_simulation* const r, doub
             break;
     }
     reb_integrator_eos_postprocessor(r, dt, reos->phi1, reb_integrator_eos_drift_shell1, reb_integrator_eos_interaction_shell1);
+    REB_VERIF(r, "drift0_e", 1, _dt);
 }
 
 void reb_integrator_eos_part1(struct reb_simulation* r){
@@ -687,6 +696,7 @@ void reb_integrator_eos_part2(struct reb_simulation* const r){
 void reb_integrator_eos_synchronize(struct reb_simulation* r){
     struct reb_integrator_eos* const reos = &(r->ri_eos);
     const double dt = r->dt;
+    REB_VERIF(r, "sync_b", 2, (double)reos->is_synchronized, 0.);
     if (reos->is_synchronized == 0){
         switch(reos->phi0){
             case REB_EOS_PMLF4:
@@ -718,6 +728,7 @@ void reb_integrator_eos_synchronize(struct reb_simulation* r){
         reb_integrator_eos_postprocessor(r, r->dt, reos->phi0, reb_integrator_eos_drift_shell0, reb_integrator_eos_interaction_shell0);
         reos->is_synchronized = 1;
     }
+    REB_VERIF(r, "sync_e", 1, (double)reos->is_synchronized);
 }
 
 void reb_integrator_eos_reset(struct reb_simulation* r){
